@@ -403,15 +403,36 @@ class Dispatch:
             defs = self._defs_under(fi, key, at, e)
             if defs:
                 return [x for v, d in defs for x in self.values_under(fi, key, d, v, depth - 1)]
-        if isinstance(e, ast.Subscript) and isinstance(e.slice, ast.Constant) and isinstance(e.slice.value, int):
-            # (a, b)[0] / the synthetic definition of a name bound by tuple unpacking
-            out: list[ast.expr] = []
-            for v in self.values_under(fi, key, at, e.value, depth - 1):
-                if isinstance(v, (ast.Tuple, ast.List)) and -len(v.elts) <= e.slice.value < len(v.elts) and not any(isinstance(x, ast.Starred) for x in v.elts):
-                    out += self.values_under(fi, key, at, v.elts[e.slice.value], depth - 1)
+        tables = getattr(self, "tables", None)
+        if tables and key is not None and isinstance(e, ast.Subscript) and isinstance(e.value, ast.Name) and key in tables.get(e.value.id, {}):
+            # TABLE[subject] with a module-level table keyed by the dispatch keys: the entry of the key under consideration
+            return self.values_under(fi, key, at, tables[e.value.id][key], depth - 1)
+        if isinstance(e, ast.Name) and isinstance(e.ctx, ast.Load) and isinstance(fi.module.globals.get(e.id), (ast.Tuple, ast.List)) \
+                and not any(isinstance(x, ast.Name) and x.id == e.id and isinstance(x.ctx, ast.Store) for x in ast.walk(fi.node)):
+            return [fi.module.globals[e.id]]  # a module-level constant table
+        if isinstance(e, ast.Subscript):
+            index: int | None = None
+            if isinstance(e.slice, ast.Constant) and isinstance(e.slice.value, int):
+                index = e.slice.value  # (a, b)[0] / the synthetic definition of a name bound by tuple unpacking
+            else:
+                # TABLE[flag]: a boolean decided by the key indexes as 0 / 1
+                src = e.slice
+                if isinstance(src, ast.Name):
+                    ds = self._defs_under(fi, key, at, src)
+                    boolish = bool(ds) and all(isinstance(v, (ast.BoolOp, ast.Compare)) or (isinstance(v, ast.UnaryOp) and isinstance(v.op, ast.Not)) for v, _ in ds)
                 else:
-                    return [e]
-            return out or [e]
+                    boolish = isinstance(src, (ast.BoolOp, ast.Compare)) or (isinstance(src, ast.UnaryOp) and isinstance(src.op, ast.Not))
+                t = self.truth_under(fi, key, at, src) if boolish else None
+                if t is not None:
+                    index = int(t)
+            if index is not None:
+                out: list[ast.expr] = []
+                for v in self.values_under(fi, key, at, e.value, depth - 1):
+                    if isinstance(v, (ast.Tuple, ast.List)) and -len(v.elts) <= index < len(v.elts) and not any(isinstance(x, ast.Starred) for x in v.elts):
+                        out += self.values_under(fi, key, at, v.elts[index], depth - 1)
+                    else:
+                        return [e]
+                return out or [e]
         return [e]
 
     def dicts_under(self, fi: FuncInfo, key: str | None) -> list[dict[str, set[str]]]:
@@ -699,8 +720,9 @@ def reaching_def(g: CFG, at: int, name: str) -> ast.expr | None:
     return None
 
 
-def expand_at(fi: FuncInfo, node: Node, e: ast.expr | None, depth: int = 4) -> ast.expr | None:
-    """``e`` as evaluated at CFG node ``node`` with locals replaced by their unique reaching definition (flow-sensitive)."""
+def expand_at(fi: FuncInfo, node: Node, e: ast.expr | None, depth: int = 4, only: set[str] | None = None) -> ast.expr | None:
+    """``e`` as evaluated at CFG node ``node`` with locals replaced by their unique reaching definition (flow-sensitive).
+    ``only``: expand just these names of ``e`` (everything inside their definitions is expanded as usual)."""
     if e is None or depth <= 0:
         return e
     import copy
@@ -708,9 +730,11 @@ def expand_at(fi: FuncInfo, node: Node, e: ast.expr | None, depth: int = 4) -> a
     g = build_cfg(fi.node)
     defs = _def_nodes(g)
 
-    def subst(x: ast.expr, at: int, d: int) -> ast.expr:
+    def subst(x: ast.expr, at: int, d: int, top: bool = False) -> ast.expr:
         class T(ast.NodeTransformer):
             def visit_Name(self, n: ast.Name) -> ast.AST:
+                if top and only is not None and n.id not in only:
+                    return n
                 if isinstance(n.ctx, ast.Load) and n.id in defs and d > 0:
                     found = _reaching_node(g, at, n.id)
                     if found is not None and defs[n.id][found] is not None:
@@ -722,7 +746,7 @@ def expand_at(fi: FuncInfo, node: Node, e: ast.expr | None, depth: int = 4) -> a
 
         return T().visit(x)
 
-    return subst(copy.deepcopy(e), node.id, depth)
+    return subst(copy.deepcopy(e), node.id, depth, top=True)
 
 
 def _reaching_node(g: CFG, at: int, name: str) -> int | None:
@@ -751,10 +775,7 @@ def forms(fi: FuncInfo, node: Node, e: ast.expr | None) -> set[str]:
     """Anonymised texts of ``e`` at increasing depths of (flow-sensitive) temporary expansion: a rule pattern may match any."""
     if e is None:
         return set()
-    out = {anon_text(e, fi.node)}
-    for d in (1, 2, 3, 4):
-        out.add(anon_text(expand_at(fi, node, e, d), fi.node))
-    return out
+    return {anon_text(x, fi.node) for x in _expansions(fi, node, e)}
 
 
 _SWAP = {ast.Eq: ast.Eq, ast.NotEq: ast.NotEq, ast.Is: ast.Is, ast.IsNot: ast.IsNot, ast.Lt: ast.Gt, ast.Gt: ast.Lt, ast.LtE: ast.GtE, ast.GtE: ast.LtE}
@@ -841,14 +862,20 @@ def family(repo, fi: FuncInfo, depth: int = 3) -> list[FuncInfo]:
     for _ in range(depth):
         nxt: list[FuncInfo] = []
         for f in frontier:
-            for c in calls_in(f.node):
-                name = call_name_of(c)
+            # helpers that are called - and helpers that are handed over as values: map(self.build_choice, xs), partial(cls.convert, ...)
+            refs: list[ast.expr] = [c.func for c in calls_in(f.node)]
+            refs += [x for x in walk_no_nested(f.node) if isinstance(x, ast.Attribute) and isinstance(x.ctx, ast.Load) and isinstance(x.value, ast.Name) and x.value.id in ("self", "cls")]
+            refs += [x for x in walk_no_nested(f.node) if isinstance(x, ast.Name) and isinstance(x.ctx, ast.Load)]
+            for fx in refs:
+                name = fx.attr if isinstance(fx, ast.Attribute) else (fx.id if isinstance(fx, ast.Name) else "")
                 if not name or name.startswith("__"):
                     continue
                 h = None
-                if isinstance(c.func, ast.Attribute) and isinstance(c.func.value, ast.Name) and c.func.value.id in ("self", "cls") and f.cls is not None:
+                if isinstance(fx, ast.Attribute) and isinstance(fx.value, ast.Name) and fx.value.id in ("self", "cls") and f.cls is not None:
                     h = f.cls.find_method(name)
-                elif isinstance(c.func, ast.Name):
+                    if h is not None and h.is_property:
+                        h = None
+                elif isinstance(fx, ast.Name):
                     h = repo.functions.get(f"{f.module.name}:{name}")
                 if h is not None and not name.startswith("_"):
                     from .inline import known_functions
@@ -1005,16 +1032,24 @@ def str_template(e: ast.expr) -> list[tuple[str, object]] | None:
         parts = _re.split(r"(\{(?:\d*|[a-zA-Z_]\w*)(?:![rsa])?(?::[^{}]*)?\})", e.func.value.value)
         out = []
         auto = 0
+        star = next((i for i, a in enumerate(e.args) if isinstance(a, ast.Starred)), None)
+
+        def positional(i: int):
+            # .format(sign, *rest): positions from the starred argument on are "some element of rest"
+            if star is not None and i >= star:
+                return e.args[star]
+            return e.args[i] if i < len(e.args) else None
+
         for p in parts:
             if not p:
                 continue
             if p.startswith("{") and p.endswith("}") and "{{" not in p:
                 key = p[1:-1].split(":", 1)[0].split("!", 1)[0]
                 if key == "":
-                    arg = e.args[auto] if auto < len(e.args) else None
+                    arg = positional(auto)
                     auto += 1
                 elif key.isdigit():
-                    arg = e.args[int(key)] if int(key) < len(e.args) else None
+                    arg = positional(int(key))
                 else:
                     arg = next((k.value for k in e.keywords if k.arg == key), None)
                 if arg is None:
@@ -1112,11 +1147,9 @@ def raw_forms(fi: FuncInfo, where: ast.AST | Node, e: ast.expr | None) -> set[st
     n = where if isinstance(where, Node) else node_containing(g, where)
     if e is None:
         return set()
-    out = {ast.unparse(e)}
-    if n is not None:
-        for d in (1, 2, 3, 4):
-            out.add(ast.unparse(expand_at(fi, n, e, d)))
-    return out
+    if n is None:
+        return {ast.unparse(e)}
+    return {ast.unparse(x) for x in _expansions(fi, n, e)}
 
 
 def test_subject(t: Node) -> ast.expr | None:
@@ -1333,7 +1366,15 @@ def _can_divert(g: CFG, test: int, target: int) -> bool:
 
 
 def _expansions(fi: FuncInfo, node: Node, e: ast.expr) -> list[ast.expr]:
-    return [e] + [expand_at(fi, node, e, d) for d in (1, 2, 3, 4)]
+    """``e`` with its temporaries expanded: all of them at increasing depths, and - so that a pattern can name one operand by its value and
+    leave the other as a local - each local of ``e`` on its own."""
+    out = [e] + [expand_at(fi, node, e, d) for d in (1, 2, 3, 4)]
+    names = sorted({x.id for x in ast.walk(e) if isinstance(x, ast.Name) and isinstance(x.ctx, ast.Load)})
+    if 1 < len(names) <= 4:
+        for nm in names:
+            for d in (1, 2):
+                out.append(expand_at(fi, node, e, d, only={nm}))
+    return out
 
 
 def anon_spaced(fi: FuncInfo, e: ast.expr) -> str:
@@ -1572,6 +1613,28 @@ def call_param(ctx, fi: FuncInfo, call: ast.Call, param: str) -> ast.expr | None
     if found and all(x is found[0] for x in found):
         return found[0]
     return None
+
+
+def call_keywords(fi: FuncInfo, call: ast.Call) -> tuple[dict[str, ast.expr], bool]:
+    """(keyword -> value, complete?) of a call: the written keywords plus the entries of ``**options`` when options is (flows from) one
+    dict display with constant keys.  complete is False when some ``**`` argument has another shape."""
+    out: dict[str, ast.expr] = {}
+    complete = True
+    for kw in call.keywords:
+        if kw.arg is not None:
+            out[kw.arg] = kw.value
+            continue
+        leaves = leaves_at(fi, call, kw.value)
+        if len(leaves) == 1 and isinstance(leaves[0], ast.Dict) and all(isinstance(x, ast.Constant) and isinstance(x.value, str) for x in leaves[0].keys):
+            for dk, dv in zip(leaves[0].keys, leaves[0].values):
+                out.setdefault(dk.value, dv)
+        elif len(leaves) == 1 and isinstance(leaves[0], ast.Call) and isinstance(leaves[0].func, ast.Name) and leaves[0].func.id == "dict" and not leaves[0].args \
+                and all(k.arg is not None for k in leaves[0].keywords):
+            for k in leaves[0].keywords:
+                out.setdefault(k.arg, k.value)
+        else:
+            complete = False
+    return out, complete
 
 
 def value_texts(fi: FuncInfo, where: ast.AST | Node, e: ast.expr | None) -> set[str]:
@@ -1870,6 +1933,11 @@ def value_sources(fi: FuncInfo, at: Node, e: ast.expr | None, depth: int = 5) ->
                     st = it.args[1] if len(it.args) > 1 else kwarg(it, "start")
                     if st is not None:
                         found.append((st, l))
+                # `for i, x in zip(itertools.count(start), xs)` (the counter possibly named first): the same counter
+                if isinstance(it, ast.Call) and isinstance(it.func, ast.Name) and it.func.id == "zip" and it.args:
+                    for cnt in leaves_at(fi, l, it.args[0]):
+                        if isinstance(cnt, ast.Call) and ast.unparse(cnt.func) in ("count", "itertools.count") and cnt.args:
+                            found.append((cnt.args[0], l))
         return found
 
     def visit(expr: ast.expr, where: Node, d: int) -> None:
